@@ -3,6 +3,7 @@ package main
 import (
 	"fmt"
 	"go/ast"
+	"go/constant"
 	"go/token"
 	"go/types"
 	"golang.org/x/tools/go/cfg"
@@ -204,6 +205,19 @@ func ruleR36(c *Ctx) {
 				if x.Tag == nil || m.KindType == nil || info.TypeOf(x.Tag) == nil || !types.Identical(info.TypeOf(x.Tag), m.KindType) {
 					return true
 				}
+				innerArms := 0
+				for _, cl := range x.Body.List {
+					for _, e := range cl.(*ast.CaseClause).List {
+						if tv, ok := info.Types[e]; ok && tv.Value != nil {
+							if v, exact := constant.Int64Val(tv.Value); exact && m.kindByValue(v) != nil {
+								innerArms++
+							}
+						}
+					}
+				}
+				if innerArms < 2 {
+					return true // a leaf test in switch form: its arms are an if/else
+				}
 				merged := bagT{}
 				var arms []bagT
 				for _, cl := range x.Body.List {
@@ -337,6 +351,26 @@ func ruleR36(c *Ctx) {
 			return "nil"
 		}
 		if cl := refClass(info.TypeOf(e)); cl != "" {
+			// which reference: the tree's root field, the slot being descended through, the
+			// cursor copy, or a child just looked up
+			switch x := e.(type) {
+			case *ast.SelectorExpr:
+				if rv, _ := rootVar(info, x); rv != nil && m.isTreeRecv(rv) {
+					return "ROOT"
+				}
+			case *ast.StarExpr:
+				return operand(u, x.X, depth+1)
+			case *ast.Ident:
+				if v, _ := info.ObjectOf(x).(*types.Var); v != nil {
+					if _, isPtr := v.Type().Underlying().(*types.Pointer); isPtr {
+						if dc := c.defCallOf(u, v); dc != nil {
+							return "CHILD"
+						}
+						return "SLOT"
+					}
+					return "CUR"
+				}
+			}
 			return cl
 		}
 		switch x := e.(type) {
@@ -369,7 +403,34 @@ func ruleR36(c *Ctx) {
 		return "?"
 	}
 	negOp := map[token.Token]token.Token{token.EQL: token.NEQ, token.NEQ: token.EQL, token.LSS: token.GEQ, token.GEQ: token.LSS, token.GTR: token.LEQ, token.LEQ: token.GTR}
+	caseTagOf := map[ast.Expr]ast.Expr{}
+	for _, u := range m.Units {
+		if u.Body == nil || u.Lit != nil {
+			continue
+		}
+		ast.Inspect(u.Body, func(n ast.Node) bool {
+			if sw, ok := n.(*ast.SwitchStmt); ok && sw.Tag != nil {
+				for _, cl := range sw.Body.List {
+					for _, e := range cl.(*ast.CaseClause).List {
+						caseTagOf[e] = sw.Tag
+					}
+				}
+			}
+			return true
+		})
+	}
 	atomText := func(u *FuncUnit, gd guard) string {
+		if tag, ok := caseTagOf[gd.atom.e]; ok {
+			l, r := operand(u, tag, 0), operand(u, gd.atom.e, 0)
+			if strings.HasSuffix(l, ".tag") && r == m.LeafKind.Name {
+				op := "=="
+				if !gd.atom.val {
+					op = "!="
+				}
+				return l + " " + op + " " + r
+			}
+			return ""
+		}
 		if len(c.resolveEq(u, gd.atom.e, gd.atom.val, 0)) > 0 {
 			return "KEY-EQUAL"
 		}
@@ -414,6 +475,17 @@ func ruleR36(c *Ctx) {
 		out := bagT{}
 		g := m.cfgOf(u)
 		guards := guardsOf(info, g)
+		// the case comparisons of a tagged switch are guards too
+		for _, b := range g.Blocks {
+			if !b.Live || len(b.Succs) != 2 || len(b.Nodes) == 0 {
+				continue
+			}
+			if e, ok := b.Nodes[len(b.Nodes)-1].(ast.Expr); ok {
+				if _, isCase := caseTagOf[e]; isCase {
+					guards = append(guards, guard{b, 0, atomCond{e, true}}, guard{b, 1, atomCond{e, false}})
+				}
+			}
+		}
 		sizeField := c.sizeField(tk)
 		label := func(b *cfg.Block) string {
 			set := map[string]bool{}
@@ -483,54 +555,175 @@ func ruleR36(c *Ctx) {
 		negative := func(s string) bool {
 			return strings.HasPrefix(s, "return false") || strings.HasPrefix(s, "return _,false")
 		}
-		// effectful outcomes (and positive results): the same multiset of (outcome, conditions)
-		for s, n := range a {
-			if !negative(s) && b[s] < n {
-				onlyA = append(onlyA, fmt.Sprintf("%q ×%d", s, n-b[s]))
+		split := func(s string) (ev string, atoms []string) {
+			i := strings.Index(s, " when ")
+			if i < 0 {
+				return s, nil
 			}
+			ev = s[:i]
+			for _, at := range strings.Split(s[i+6:], " & ") {
+				if at != "" {
+					atoms = append(atoms, at)
+				}
+			}
+			return
 		}
-		for s, n := range b {
-			if !negative(s) && a[s] < n {
-				onlyB = append(onlyB, fmt.Sprintf("%q ×%d", s, n-a[s]))
+		// contradicts: the two atoms cannot hold together
+		contradicts := func(x, y string) bool {
+			if (x == "KEY-EQUAL" && y == "KEY-DIFFERENT") || (x == "KEY-DIFFERENT" && y == "KEY-EQUAL") {
+				return true
+			}
+			parse := func(s string) (l, op, r string, ok bool) {
+				for _, o := range []string{" == ", " != ", " <= ", " < "} {
+					if i := strings.Index(s, o); i >= 0 {
+						return s[:i], strings.TrimSpace(o), s[i+len(o):], true
+					}
+				}
+				return
+			}
+			l1, o1, r1, ok1 := parse(x)
+			l2, o2, r2, ok2 := parse(y)
+			if !ok1 || !ok2 {
+				return false
+			}
+			same := l1 == l2 && r1 == r2
+			swapped := l1 == r2 && r1 == l2
+			switch {
+			case (same || swapped) && ((o1 == "==" && o2 == "!=") || (o1 == "!=" && o2 == "==")):
+				return true
+			case swapped && ((o1 == "<" && (o2 == "<" || o2 == "<=")) || (o1 == "<=" && o2 == "<")):
+				return true
+			case (same || swapped) && ((o1 == "==" && o2 == "<") || (o1 == "<" && o2 == "==")):
+				return true
+			}
+			return false
+		}
+		// references are named by their type only, so one label can hold a condition on the cursor
+		// and the opposite condition on its child: such pairs say nothing and are dropped
+		unambiguous := func(x []string) []string {
+			var out []string
+			for _, p := range x {
+				amb := false
+				for _, q := range x {
+					if contradicts(p, q) {
+						amb = true
+					}
+				}
+				if !amb {
+					out = append(out, p)
+				}
+			}
+			return out
+		}
+		compatible := func(x, y []string) bool {
+			x, y = unambiguous(x), unambiguous(y)
+			for _, p := range x {
+				for _, q := range y {
+					if contradicts(p, q) {
+						return false
+					}
+				}
+			}
+			return true
+		}
+		// effectful outcomes and positive results: the two copies have the same outcomes, and each
+		// outcome of one copy is matched by one of the other that is reached under conditions that
+		// do not contradict its own (a copy may spell a condition out that the other one implies)
+		type occ struct {
+			ev    string
+			atoms []string
+			full  string
+		}
+		expand := func(x bagT) map[string][]occ {
+			out := map[string][]occ{}
+			for _, s := range sortedKeys(x) {
+				if negative(s) {
+					continue
+				}
+				ev, atoms := split(s)
+				for i := 0; i < x[s]; i++ {
+					out[ev] = append(out[ev], occ{ev, atoms, s})
+				}
+			}
+			return out
+		}
+		ea, eb := expand(a), expand(b)
+		evs := map[string]bool{}
+		for ev := range ea {
+			evs[ev] = true
+		}
+		for ev := range eb {
+			evs[ev] = true
+		}
+		for _, ev := range sortedKeys(evs) {
+			xs, ys := ea[ev], eb[ev]
+			// bipartite matching by augmenting paths
+			matchY := make([]int, len(ys))
+			for i := range matchY {
+				matchY[i] = -1
+			}
+			var try func(i int, seen []bool) bool
+			try = func(i int, seen []bool) bool {
+				for j := range ys {
+					if seen[j] || !compatible(xs[i].atoms, ys[j].atoms) {
+						continue
+					}
+					seen[j] = true
+					if matchY[j] == -1 || try(matchY[j], seen) {
+						matchY[j] = i
+						return true
+					}
+				}
+				return false
+			}
+			matchedX := make([]bool, len(xs))
+			for i := range xs {
+				if try(i, make([]bool, len(ys))) {
+					matchedX[i] = true
+				}
+			}
+			for j, i := range matchY {
+				if i >= 0 {
+					matchedX[i] = true
+				} else {
+					onlyB = append(onlyB, fmt.Sprintf("%q", ys[j].full))
+				}
+			}
+			for i := range xs {
+				if !matchedX[i] {
+					onlyA = append(onlyA, fmt.Sprintf("%q", xs[i].full))
+				}
 			}
 		}
 		// "absent" answers: where they are given depends on the statement form (an early return,
 		// a break to a common exit, a guard folded into the loop header), so only the conditions
-		// themselves are compared – the conditions one copy answers "absent" under must be among
-		// those of the other copy, polarity included
+		// themselves are compared – a condition under which only one copy answers "absent" must
+		// not be the negation of a condition under which only the other one does
 		negAtoms := func(x bagT) map[string]bool {
 			out := map[string]bool{}
 			for s := range x {
 				if !negative(s) {
 					continue
 				}
-				if i := strings.Index(s, " when "); i >= 0 {
-					for _, at := range strings.Split(s[i+6:], " & ") {
-						if at != "" {
-							out[at] = true
-						}
-					}
+				_, atoms := split(s)
+				for _, at := range atoms {
+					out[at] = true
 				}
 			}
 			return out
 		}
 		na, nb := negAtoms(a), negAtoms(b)
-		var extraA, extraB []string
-		for at := range na {
-			if !nb[at] {
-				extraA = append(extraA, at)
+		for _, x := range sortedKeys(na) {
+			if nb[x] {
+				continue
 			}
-		}
-		for at := range nb {
-			if !na[at] {
-				extraB = append(extraB, at)
+			for _, y := range sortedKeys(nb) {
+				if na[y] || !contradicts(x, y) {
+					continue
+				}
+				onlyA = append(onlyA, fmt.Sprintf("answers absent under %q", x))
+				onlyB = append(onlyB, fmt.Sprintf("answers absent under %q", y))
 			}
-		}
-		if len(extraA) > 0 && len(extraB) > 0 {
-			sort.Strings(extraA)
-			sort.Strings(extraB)
-			onlyA = append(onlyA, fmt.Sprintf("answers absent under %q", strings.Join(extraA, ", ")))
-			onlyB = append(onlyB, fmt.Sprintf("answers absent under %q", strings.Join(extraB, ", ")))
 		}
 		sort.Strings(onlyA)
 		sort.Strings(onlyB)
